@@ -28,7 +28,17 @@ def build1(e):
         return WeeklyCalendar(start=from_us(st), end=from_us(en), days=list(days), units_per_day=num_in(u))
     if k == 'wdict':
         _, st, en, m = e
-        return WeeklyCalendar(start=from_us(st), end=from_us(en), units_per_day={int(d): num_in(v) for d, v in m})
+        # the dict stays the CALLER's: a second calendar is built from it, then the caller changes it (other hours on the
+        # configured weekdays, hours on the others) - none of which may show in the calendar of the case
+        given = {int(d): num_in(v) for d, v in m}
+        c = WeeklyCalendar(start=from_us(st), end=from_us(en), units_per_day=given)
+        try:
+            WeeklyCalendar(units_per_day=given)
+        except BaseException:  # noqa - the twin is not part of the case
+            pass
+        for d in range(7):
+            given[d] = 9.25 if d in given else 3.5
+        return c
     if k == 'fixed':
         _, u, st, en = e
         return FixedCalendar(num_in(u), from_us(st), from_us(en))
